@@ -549,6 +549,18 @@ def demoOps' : List Op :=
   [.add (fr hBaio 1 pZ none 5), .add (fr hBaio 0 pAb (some GET) 3), .add (fr hBaio 2 pA none 9), .add (fr hStarAio 0 pSlash none 1),
    .add (fr hBaio 0 pAb (some GET) 7), .remove (fr hBaio 2 pA none 9), .add (fr hBaio 2 pZ none 4), .add (fr hBaio 0 pA none 2)]
 
+/-- F1493 (fixed by 13212df): a tree frontend whose hostname parses as a regex
+    domain but is not a storable trie key (`x/b/`, `a/`) is refused with
+    `AddRoute` — it used to panic in `TrieNode::insert` — and leaves no trace:
+    the configured frontends keep routing, the refused one never does. -/
+theorem C04_regression_unstorable_regex_host_refused :
+    (addFront oAll (run oAll demoOps) (fr [120, 47, 98, 47] 0 pSlash none 9)).2 = AddOut.errAdd ∧
+    (addFront oAll Router.new (fr [97, 47] 0 pSlash none 9)).2 = AddOut.errAdd ∧
+    lookupRoute oNone (addFront oNone (run oNone demoOps) (fr [120, 47, 98, 47] 0 pSlash none 9)).1 hBaio pAb GET
+      = some (.cluster [3]) ∧
+    lookupRoute oAll (addFront oAll Router.new (fr [120, 47, 98, 47] 0 pSlash none 9)).1 [120, 47, 98, 47] pSlash GET = none := by
+  decide
+
 example : lookupRoute oNone (run oNone demoOps) hBaio pAb GET = some (.cluster [3]) := by decide
 example : Spec.route oNone (Spec.run demoOps) hBaio pAb GET = [some (.cluster [3])] := by decide
 example : lookupRoute oNone (run oNone demoOps) hBcaio pA GET = some (.cluster [1]) := by decide
